@@ -434,6 +434,15 @@ func streamRListen(c *ctx) {
 			}
 			mu.Lock()
 			ok := fmt.Sprint(evs) == fmt.Sprint(want) && errs == bad && conn == 1
+			if busyStop {
+				// datagrams the library had not read yet when it was told to stop are not "received": what must hold is that
+				// those it did hand over are the first ones sent, in order, once each - and that nothing crashed or hung
+				prefix := len(evs) <= len(want)
+				for i := 0; prefix && i < len(evs); i++ {
+					prefix = evs[i] == want[i]
+				}
+				ok = prefix && errs <= bad && conn == 1
+			}
 			mu.Unlock()
 			if ok && end == "returned" {
 				res = append(res, "cycle-ok")
